@@ -2,6 +2,7 @@ pub mod c01;
 pub mod common;
 pub mod concprops;
 pub mod crashprops;
+pub mod faultprops;
 pub mod seqdom;
 pub mod seqprops;
 
@@ -19,6 +20,7 @@ pub fn all() -> Vec<Box<dyn Prop>> {
         Box::new(crashprops::C05),
         Box::new(concprops::C06),
         Box::new(concprops::C07),
+        Box::new(faultprops::C17),
         Box::new(concprops::C18),
     ]
 }
